@@ -35,9 +35,13 @@ def make_filter(rng, which=None, measure=None):
     if m == 'EDIT_DISTANCE':
         kind, tok = T.make_tokenizer(rng, rng.choice(['qgram2', 'qgram3', 'qgram2np']), return_set=False)
         tcls, t = 'int', rng.choice([0, 1, 1, 2, 2, 3])
+        if rng.random() < 0.25:      # float thresholds are documented and validated: distance <= 1.5 means <= 1
+            tcls, t = 'float', rng.choice([0.0, 1.0, 2.0, 1.5, 0.5, 2.999999, 3.0000001])
     elif m == 'OVERLAP':
         kind, tok = T.make_tokenizer(rng, None, return_set=True)
         tcls, t = 'int', rng.choice([1, 1, 2, 3])
+        if rng.random() < 0.25:      # overlap >= 1.5 means >= 2
+            tcls, t = 'float', rng.choice([1.0, 2.0, 1.5, 0.5, 2.000001, 1e-9, 3.0])
     else:
         kind, tok = T.make_tokenizer(rng, None, return_set=True)
         tcls, t = gens.any_threshold_value(rng)
